@@ -52,6 +52,9 @@ sys.path.insert(0, os.path.dirname(os.path.abspath(__file__)))
 import rustlex  # noqa: E402
 
 
+BASELINE_SIGS = {}
+
+
 class Lost(Exception):
     """An anchor or function named by a contract could not be found (inconclusive, exit 2)."""
 
@@ -93,15 +96,69 @@ class FileJob:
         self.src = src
         self.toks, self.pair, self.fns = rustlex.find_fns(src)
         self.blocks = list(rustlex.find_fns.last_blocks)
+        self.renamed = {}
+        self.last_rename = None
         self.edits = []  # (pos, end, text, origin, order)
         self.wrap = None
         self.order = 0
 
+    def sig_of(self, f):
+        """-> (params [(name, type)], ret) with whitespace-normalised types; receiver kept as ('self', text)"""
+        toks = self.toks
+        parts, start, j = [], f.params_open + 1, f.params_open + 1
+        depth_angle = 0
+        while j < f.params_close:
+            t = toks[j]
+            if t.kind == 'punct' and t.text in ('(', '[', '{'):
+                j = self.pair[j] + 1
+                continue
+            if t.text == '<':
+                depth_angle += 1
+            elif t.text == '>' :
+                depth_angle -= 1
+            elif t.text == ',' and depth_angle == 0:
+                parts.append((start, j)); start = j + 1
+            j += 1
+        if start < f.params_close:
+            parts.append((start, f.params_close))
+        params = []
+        for (x, y) in parts:
+            text = re.sub(r'\s+', ' ', self.src[toks[x].pos:toks[y - 1].end]).strip()
+            if re.match(r'(&\s*(mut\s+)?)?self$', text) or text.startswith('self:') or text.startswith('mut self'):
+                params.append(('self', text.replace(' ', '')))
+            else:
+                name, _, ty = text.partition(':')
+                params.append((name.strip(), re.sub(r'\s+', '', ty)))
+        ret = re.sub(r'\s+', '', self.src[f.ret_span[0]:f.ret_span[1]]) if f.ret_span else ''
+        return params, ret
+
     def fn(self, qual):
+        self.last_rename = None
         m = [f for f in self.fns if f.qual == qual]
-        if len(m) != 1:
-            raise Lost('%s: function `%s` found %d times' % (self.rel, qual, len(m)))
-        return m[0]
+        if len(m) == 1:
+            return m[0]
+        if len(m) == 0 and qual in BASELINE_SIGS.get(self.rel, {}):
+            # renamed?  fall back to the unique function of the same impl/trait block with the same signature types
+            base = BASELINE_SIGS[self.rel][qual]
+            header = qual.rsplit('::', 1)[0] if '::' in qual else ''
+            known = set(BASELINE_SIGS[self.rel].keys())
+            cands = []
+            for f in self.fns:
+                if f.qual in known:
+                    continue
+                h = f.qual.rsplit('::', 1)[0] if '::' in f.qual else ''
+                if h != header:
+                    continue
+                params, ret = self.sig_of(f)
+                if [p[1] for p in params] == [p[1] for p in base['params']] and ret == base['ret']:
+                    cands.append((f, params))
+            if len(cands) == 1:
+                f, params = cands[0]
+                ren = {old[0]: new[0] for old, new in zip(base['params'], params) if old[0] != new[0] and old[0] != 'self'}
+                self.renamed[qual] = dict(now=f.qual, params=ren)
+                self.last_rename = ren
+                return f
+        raise Lost('%s: function `%s` found %d times' % (self.rel, qual, len(m)))
 
     def add(self, pos, end, text, origin):
         self.order += 1
@@ -326,11 +383,14 @@ def origin_contract(d, ln, clause):
     return dict(kind='contract', file=os.path.basename(d['src']), line=ln, clause=clause)
 
 
-def payload_text(d, tags_out):
+def payload_text(d, tags_out, rename=None):
     """Join payload lines; return text and a per-line origin list (clause tracking)."""
     lines, origins = [], []
     clause = None
     for text, ln in d['payload']:
+        if rename and not text.lstrip().startswith('//'):
+            for old, new in rename.items():
+                text = re.sub(r'(?<![A-Za-z0-9_.])%s(?![A-Za-z0-9_])' % re.escape(old), new, text)
         m = re.match(r'\s*//#\s*(\S+)\s*(?:\[([^\]]*)\])?\s*(.*)$', text)
         if m:
             clause = m.group(1)
@@ -344,6 +404,9 @@ def payload_text(d, tags_out):
 
 
 def annotate(repo, contracts, out):
+    global BASELINE_SIGS
+    bs = os.path.join(os.path.dirname(os.path.abspath(contracts[0])), 'baseline_sigs.json') if contracts else None
+    BASELINE_SIGS = json.load(open(bs)) if bs and os.path.exists(bs) else {}
     directives = parse_contracts(contracts)
     jobs = {}
     clauses = {}
@@ -353,6 +416,8 @@ def annotate(repo, contracts, out):
     tops, appends, crate_tops = {}, {}, {}
     for d in directives:
         head = d['head']
+        if cur is not None:
+            cur.last_rename = None
         try:
             m = re.match(r'file\s+(\S+)$', head)
             if m:
@@ -410,7 +475,7 @@ def annotate(repo, contracts, out):
             m = re.match(r'fn\s+(.+?)(?:\s+->\s+(\w+))?$', head)
             if m:
                 f = cur.fn(m.group(1).strip())
-                text, orig = payload_text(d, clauses)
+                text, orig = payload_text(d, clauses, cur.last_rename if cur is not None else None)
                 ins = cur.toks[f.body_open].pos if f.body_open >= 0 else cur.toks[f.body_close].pos
                 cur.add(ins, ins, '\n' + text, orig)
                 if m.group(2):
@@ -423,7 +488,7 @@ def annotate(repo, contracts, out):
             m = re.match(r'attr\s+(.+)$', head)
             if m:
                 f = cur.fn(m.group(1).strip())
-                text, orig = payload_text(d, clauses)
+                text, orig = payload_text(d, clauses, cur.last_rename if cur is not None else None)
                 cur.add(f.sig_start, f.sig_start, text, orig)
                 if 'external_body' in text:
                     notes['external_body'].append(f.qual)
@@ -433,7 +498,7 @@ def annotate(repo, contracts, out):
                 f = cur.fn(m.group(1).strip())
                 mode, anchor = m.group(2), unq(m.group(3))
                 p = cur.find_anchor(f, anchor)
-                text, orig = payload_text(d, clauses)
+                text, orig = payload_text(d, clauses, cur.last_rename if cur is not None else None)
                 if mode == 'before-stmt':
                     ins = cur.stmt_start(p)
                 elif mode == 'after-stmt':
@@ -452,7 +517,7 @@ def annotate(repo, contracts, out):
                 idxs = [x.start() for x in re.finditer(re.escape(anchor), cur.src)]
                 if len(idxs) != 1:
                     raise Lost('%s: file anchor %r occurs %d times' % (cur.rel, anchor, len(idxs)))
-                text, orig = payload_text(d, clauses)
+                text, orig = payload_text(d, clauses, cur.last_rename if cur is not None else None)
                 ins = idxs[0] if m.group(1) == 'before' else idxs[0] + len(anchor)
                 cur.add(ins, ins, text, orig)
                 continue
@@ -461,7 +526,7 @@ def annotate(repo, contracts, out):
                 bl = [b for b in cur.blocks if b[0] == m.group(1).strip()]
                 if len(bl) != 1:
                     raise Lost('%s: block `%s` found %d times' % (cur.rel, m.group(1), len(bl)))
-                text, orig = payload_text(d, clauses)
+                text, orig = payload_text(d, clauses, cur.last_rename if cur is not None else None)
                 if m.group(2) == 'start':
                     ins = cur.toks[bl[0][1]].end
                     cur.add(ins, ins, '\n' + text, orig)
@@ -481,14 +546,14 @@ def annotate(repo, contracts, out):
                 ins = cur.stmt_start(cur.toks[j].pos) if j > f.body_open else cur.toks[f.body_open].end
                 # stmt_start looks left from the token *containing* pos; make sure we stay inside the body
                 ins = max(ins, cur.toks[f.body_open].end)
-                text, orig = payload_text(d, clauses)
+                text, orig = payload_text(d, clauses, cur.last_rename if cur is not None else None)
                 cur.add(ins, ins, text, orig)
                 continue
             m = re.match(r'in\s+(.+?)\s+body-start$', head)
             if m:
                 f = cur.fn(m.group(1).strip())
                 a, _ = cur.body_range(f)
-                text, orig = payload_text(d, clauses)
+                text, orig = payload_text(d, clauses, cur.last_rename if cur is not None else None)
                 cur.add(a, a, '\n' + text, orig)
                 continue
             m = re.match(r'underscore-params\s+(.+)$', head)
@@ -651,6 +716,7 @@ def annotate(repo, contracts, out):
             fr.append(dict(qual=f.qual, start=result.count('\n', 0, s) + 1, end=result.count('\n', 0, e) + 1,
                            repo_line=rustlex.line_of(src, job.toks[f.fn_tok].pos)))
         fnranges[rel] = fr
+    notes['renamed'] = {rel: job.renamed for rel, job in jobs.items() if job.renamed}
     meta = dict(srcmap=srcmap, fnranges=fnranges, clauses=clauses, notes=notes)
     with open(os.path.join(out, 'annotate.json'), 'w') as fh:
         json.dump(meta, fh, indent=1)
